@@ -11,6 +11,13 @@ pub type Result<T> = std::result::Result<T, Error>;
 
 /// Read a PDU from the given byte buffer.
 pub fn read_pdu(mut buf: impl Buf, max_pdu_length: u32, strict: bool) -> Result<Option<Pdu>> {
+    // a maximum length of 0 stands for "no maximum length specified"
+    // (PS3.8 Annex D.1), which is how it is announced to the peer
+    let max_pdu_length = if max_pdu_length == 0 {
+        super::MAXIMUM_PDU_SIZE
+    } else {
+        max_pdu_length
+    };
     ensure!(
         (super::MINIMUM_PDU_SIZE..=super::MAXIMUM_PDU_SIZE).contains(&max_pdu_length),
         InvalidMaxPduSnafu { max_pdu_length },
